@@ -1074,6 +1074,10 @@ class PackBasedObjectStore(PackCapableObjectStore, PackedObjectContainer):
         """
         if self.contains_packed(sha) or self.contains_loose(sha):
             return True
+        # The object may have moved from loose to packed between the two
+        # checks (concurrent repack): look at the packs once more.
+        if self.contains_packed(sha):
+            return True
         for alternate in self.alternates:
             if sha in alternate:
                 return True
@@ -1431,6 +1435,13 @@ class PackBasedObjectStore(PackCapableObjectStore, PackedObjectContainer):
         ret = self._get_loose_object(hexsha)
         if ret is not None:
             return ret.type_num, ret.as_raw_string()
+        # Not loose either: another process may have packed the object and
+        # removed the loose file after we looked at the packs. Look again
+        # (this rescans the pack directory), as git does.
+        try:
+            return self._lookup_in_packs(lambda p: p.get_raw(sha))
+        except KeyError:
+            pass
         for alternate in self.alternates:
             try:
                 return alternate.get_raw(hexsha)
@@ -2553,7 +2564,11 @@ class DiskObjectStore(PackBasedObjectStore):
             # Look for MIDX in pack directory
             midx_file = os.path.join(self.pack_dir, "multi-pack-index")
             if os.path.exists(midx_file):
-                self._midx = load_midx(midx_file)
+                try:
+                    self._midx = load_midx(midx_file)
+                except FileNotFoundError:
+                    # Removed by a concurrent repack/gc since the check above
+                    pass
         return self._midx
 
     def _get_pack_by_name(self, pack_name: str) -> Pack:
